@@ -357,6 +357,33 @@ Theorem C11_state_blind_is_pure :
 Proof. intros X simulate d c H. apply history_is_fresh. exact H. Qed.
 Print Assumptions C11_state_blind_is_pure.
 
+(* the judge of the history case files (every step against the history-free specification spec_fit, equal
+   vectors must get equal values, the problem's data unchanged) is met by the model: for every history over
+   vectors outside the input classes of the open findings (zip, F6d, F6e: the hypotheses of
+   C11_model_meets_spec_partial), whose identifiers name their frames, whatever the registers held, the
+   judge reports NOTHING on what the model of the source answers *)
+Theorem C11_model_history_meets_spec : forall c (ops : list (hop hx)) regs,
+  fc_bypass c = false ->
+  (forall x, In (Some x) (map op_x ops) ->
+     (length (fc_tgts c) <= length (snd x))%nat /\ frame_covers c (snd x) = true /\ time_2d_ok c (snd x) = true) ->
+  (forall x y, In (Some x) (map op_x ops) -> In (Some y) (map op_x ops) -> fst x = fst y -> snd x = snd y) ->
+  hist_violation_steps {| hc_c := c; hc_ops := ops;
+                          hc_obs := snd (run_hist (@snd nat (list frame3)) src_fdesc src_checker src_calls src_weights
+                                                  c regs ops);
+                          hc_same := true |} = [].
+Proof.
+  intros c ops regs Hb Hx Hid.
+  apply (model_history_meets_spec src_checker src_calls src_weights c (fun x => In (Some x) (map op_x ops))).
+  - intros x e Gx Hs. destruct (Hx x Gx) as (Hl & Hf & Ht).
+    apply C11_model_meets_spec_partial; assumption.
+  - exact Hid.
+  - apply C11_src_fitness_keeps_no_state.
+  - apply Forall_forall. intros o Ho. unfold op_good.
+    destruct (op_x o) as [x|] eqn:E; [|exact I].
+    rewrite <- E. apply in_map. exact Ho.
+Qed.
+Print Assumptions C11_model_history_meets_spec.
+
 (* three targets (5, 9, 4 on a 1 x 1 frame), three processors; vector g simulates the value g everywhere *)
 Definition ex_h3 : fconf :=
   {| fc_ff := FAbs; fc_multi := false;
@@ -373,6 +400,18 @@ Example C11_history_nonvacuous :
                 [HFit 6; HFit 0; HFitCopy 6; HNop; HFit 0])
   = [Some (OVal 6); Some (OVal 18); Some (OVal 6); None; Some (OVal 18)].
 Proof. vm_compute. reflexivity. Qed.
+
+(* the judge is discriminating: the same history answered by the description with a remembered best and an
+   early exit is reported (step 1: the partial sum 14 is not the declared 18; step 3: the vector of step 1 now
+   gets another value), answered by the description of the source it is not *)
+Example C11_history_judge_nonvacuous :
+  let ops := [HFit (0%nat, ex_sim 6); HFit (1%nat, ex_sim 0); HFitCopy (0%nat, ex_sim 6); HFit (1%nat, ex_sim 0)] in
+  let case d := {| hc_c := ex_h3; hc_ops := ops;
+                   hc_obs := snd (run_hist (@snd nat (list frame3)) d src_checker src_calls src_weights ex_h3 (fd_regs d) ops);
+                   hc_same := true |} in
+  hist_violation_steps (case src_fdesc) = [] /\ hist_violation_steps (case ex_best_break) = [1%Z; 3%Z] /\
+  spec_fit ex_h3 (ex_sim 0) = Some (OVal 18).
+Proof. vm_compute. repeat split; reflexivity. Qed.
 
 (* the model can express what the theorems exclude.  (a) a remembered best fitness with an early exit
    (candidates worse than the best one seen are abandoned): not register-blind; the bad vector evaluated
